@@ -298,16 +298,20 @@ def check_locs(drv, ev, f, secs, toff, cases, builder, rnd, version, recipe):
                                 byc.setdefault(v, nme)
                         probe = [byc[c] for c in sorted(present) if c in byc][:4] + ["DW_OP_xderef", "DW_OP_lit9"]
                         for w in probe:
-                            rr = drv.run("entry (offset == %d) attribute ?0 value (|L| [L ?%s pos] [L !%s pos])" % (d.offset, w[3:], w[3:]), tok, limit=50)
+                            # (both spellings of the word, OP_x and DW_OP_x, each in its ? and ! form)
+                            rr = drv.run("entry (offset == %d) attribute ?0 value (|L| [L ?%s pos] [L !%s pos] [L ?%s pos] [L !%s pos])" % (d.offset, w[3:], w[3:], w, w), tok, limit=50)
                             if "error" in rr or "cerror" in rr:
                                 continue
                             code = names[w]
                             for i, (row, (lo, hi, expr, ops)) in enumerate(zip(rr["res"], ranges)):
-                                holds = len(row[-2]["e"]) == 1
-                                nholds = len(row[-1]["e"]) == 1
+                                holds = len(row[-4]["e"]) == 1
+                                nholds = len(row[-3]["e"]) == 1
                                 has = any(c == code for _, c, _, _ in ops)
                                 if holds != has or nholds == holds:
                                     bad = "?%s on element #%d is %s, the expression %s that opcode" % (w[3:], i, holds, "has" if has else "lacks")
+                                    break
+                                if (len(row[-2]["e"]) == 1) != has or (len(row[-1]["e"]) == 1) == has:
+                                    bad = "?%s / !%s on element #%d are %s / %s, the expression %s that opcode" % (w, w, i, len(row[-2]["e"]) == 1, len(row[-1]["e"]) == 1, "has" if has else "lacks")
                                     break
                             ev.label("?OP_x")
                             if bad:
